@@ -119,6 +119,9 @@ class InstrShape(PipeShape):
         obl = []
         if 'C12' in props:
             obl.append(('C12.accepted_statement_satisfies_every_configured_constraint', accept))
+        elif tag == 'C01':
+            # a field holds exactly its configured number of bits only if the value fits them
+            obl.append(('C01.every_field_value_of_an_accepted_statement_fits_its_configured_bits', accept))
         if True:
             obl.append((f'{tag}.image_is_the_prescribed_bit_layout', z3.Implies(accept, O.bytes_equal(
                 None if out.image is None else [E.SymInt(zv(b) & E.bvval(0xff)) for b in out.image], ref))))
